@@ -76,6 +76,7 @@ type c01Cfg struct {
 	senders, receivers int
 	repeats            int
 	replies            bool
+	atMostOnce         bool // judge a second delivery of a unique (self-describing) payload: the stack under test must suppress replays
 }
 
 //go:noinline
@@ -156,6 +157,9 @@ func runLedgerWorkload(r *ev.Run, st *Stack, g *rng.R, caseID string, cfg c01Cfg
 							got.Add(1)
 							if match.delivered.Add(1) > 1 {
 								dups.Add(1)
+								if cfg.atMostOnce && len(p) >= ledgerHdr+4 {
+									viol("delivered-twice", "a payload that was told once was handed to the receiver a second time", map[string]any{"receiver": node.Idx, "sender": match.Sender, "len": len(p), "head": hexShort(p)})
+								}
 							}
 							r.NonTrivial(fmt.Sprintf("%s/%s", st.Name, lenClassOf(len(p), mtu, st.InnerMTU)))
 							// reply to the observed source address
